@@ -13,7 +13,25 @@ def section_d(path):
     return m.group(1).strip() if m else None
 
 
-out = [BEGIN, "", "## Appendix C. As built, per property (from the hand-over notes in `integration/`)", ""]
+import sys
+sys.path.insert(0, HERE)
+from vlib import lean as _lean
+out = [BEGIN, "", "## Appendix B2. What is claimed (generated from MANIFEST.json and the Lean sources)", "",
+       "| id | theorems in Props/ (all re-checked and axiom-audited on every run) | technique | evidence of the last committed run |", "|---|---|---|---|"]
+_man = json.load(open(os.path.join(HERE, "MANIFEST.json")))
+_mods = {"C04": ["C04Req", "C04Rep"], "C16": ["C16", "C16Http"]}
+for c in _man["checks"]:
+    pid = c["property_id"]
+    n = sum(len(_lean.theorem_names(f"NngModel.Props.{m}")) for m in _mods.get(pid, [pid]))
+    ev = ""
+    try:
+        e = json.load(open(os.path.join(HERE, "evidence", f"{pid}.json")))
+        cov = e["coverage"]
+        ev = f"{cov.get('discharged')}/{cov.get('obligations')} obligations, {cov.get('evaluations')} runs, {e.get('violations')} violations, {e.get('wall_s')} s"
+    except Exception:
+        pass
+    out.append(f"| {pid} | {n} | {c.get('technique','')} | {ev} |")
+out += ["", "## Appendix C. As built, per property (from the hand-over notes in `integration/`)", ""]
 for f in sorted(glob.glob(os.path.join(HERE, "integration", "*.md"))):
     name = os.path.basename(f)[:-3]
     d = section_d(f)
